@@ -10,6 +10,7 @@ import (
 	"os"
 	"runtime"
 	"sort"
+	"sync"
 	"testing"
 	"time"
 
@@ -37,9 +38,15 @@ type opRec struct {
 }
 type recorder struct{ ops []opRec }
 
-func (r *recorder) Put(k, v []byte) error { r.ops = append(r.ops, opRec{false, string(k), string(v)}); return nil }
-func (r *recorder) Delete(k []byte) error { r.ops = append(r.ops, opRec{true, string(k), ""}); return nil }
-func (r *recorder) Logger() *log.Logger   { return log.Global }
+func (r *recorder) Put(k, v []byte) error {
+	r.ops = append(r.ops, opRec{false, string(k), string(v)})
+	return nil
+}
+func (r *recorder) Delete(k []byte) error {
+	r.ops = append(r.ops, opRec{true, string(k), ""})
+	return nil
+}
+func (r *recorder) Logger() *log.Logger { return log.Global }
 
 // outcome is everything Process returns, in a comparable form.
 type outcome struct {
@@ -262,9 +269,13 @@ func history(m *mon.M, r *rand.Rand, hIdx, blocks int, replayEvery int, follower
 			for k, procs := range []int{1, 2, 16} {
 				old := runtime.GOMAXPROCS(procs)
 				rr := rand.New(rand.NewSource(int64(hIdx*1000 + i*10 + k)))
+				var rrMu sync.Mutex // the trimming goroutines call the hook concurrently
 				core.VerifSetHook(func(name string) {
 					if name == "finalize.trim" {
-						time.Sleep(time.Duration(rr.Intn(300)) * time.Microsecond)
+						rrMu.Lock()
+						d := rr.Intn(300)
+						rrMu.Unlock()
+						time.Sleep(time.Duration(d) * time.Microsecond)
 						runtime.Gosched()
 					}
 				})
